@@ -9,7 +9,7 @@ use rten_tensor::{AsView, Layout, Tensor, TensorView};
 use safetensors::tensor::TensorView as SafeTensorView;
 use safetensors::{Dtype, SafeTensorError, SafeTensors, serialize};
 
-use crate::value::{DataType, Value, View, dispatch_data_type, match_view};
+use crate::value::{DataType, Value, View, checked_element_count, dispatch_data_type, match_view};
 
 /// A Rust element type that can be (de)serialized in the safetensors format.
 trait SafeElement: Sized {
@@ -117,6 +117,12 @@ fn value_from_view(view: &SafeTensorView) -> io::Result<Value> {
         )
     })?;
     let shape = view.shape();
+    if checked_element_count(shape).is_none() {
+        return Err(io::Error::new(
+            io::ErrorKind::InvalidData,
+            "tensor shape is too large",
+        ));
+    }
     let bytes = view.data();
     let value = dispatch_data_type!(data_type, T => {
         let data = <T as SafeElement>::from_le_bytes(bytes);
@@ -356,6 +362,18 @@ mod tests {
         let err = read_array(&buffer[..], "missing").unwrap_err();
 
         assert_eq!(err.kind(), io::ErrorKind::NotFound);
+    }
+
+    #[test]
+    fn test_read_safetensors_rejects_overflowing_shape_with_zero_dim() {
+        let header =
+            r#"{"a":{"dtype":"U8","shape":[0,3,9223372036854775807],"data_offsets":[0,0]}}"#;
+        let mut bytes = (header.len() as u64).to_le_bytes().to_vec();
+        bytes.extend_from_slice(header.as_bytes());
+
+        let err = read(&bytes[..]).unwrap_err();
+
+        assert_eq!(err.kind(), io::ErrorKind::InvalidData);
     }
 
     #[test]
